@@ -622,7 +622,7 @@ func TestC03Read(t *testing.T) {
 	rep.Extra["history_expiries_observed"] = st.expired
 	rep.Extra["bounds"] = fmt.Sprintf("files<=%d len<=%d pl<=%d cache block 1..pl+1 capacity{0,block,all} histories<=3 gaps=%v ttl=%v zero-length-sections-in-shapes=%v", maxFiles, maxLen, maxPL, gaps, ttl, fullShapes)
 	if accepted == 0 || c.crossed == 0 || c.padded == 0 || st.warm == 0 || st.cold == 0 || st.evicted == 0 || st.expired == 0 {
-		core.HarnessError("vacuous: accepted=%d crossed=%d padded=%d warm=%d cold=%d evicted=%d expired=%d", accepted, c.crossed, c.padded,
+		rep.Vacuous("vacuous: accepted=%d crossed=%d padded=%d warm=%d cold=%d evicted=%d expired=%d", accepted, c.crossed, c.padded,
 			st.warm, st.cold, st.evicted, st.expired)
 	}
 	rep.Finish()
